@@ -252,6 +252,34 @@ func (ss *sess) recompute(when string) bool {
 			ss.fail("scan-count", fmt.Sprintf("%s: SCAN %q COUNT = %s, %d objects retrievable", when, k, r.String(), nObj))
 			return false
 		}
+		// the id scan restricted to two id prefixes, in both directions (the range shortcut for several
+		// patterns is computed per direction): the count of retrievable ids with either prefix
+		if len(objs) >= 2 {
+			firsts := map[byte]int64{}
+			for _, o := range objs {
+				if len(o.ID) > 0 && !strings.ContainsAny(o.ID[:1], "*?[\\") {
+					firsts[o.ID[0]]++
+				}
+			}
+			var fs []byte
+			for b := range firsts {
+				fs = append(fs, b)
+			}
+			sort.Slice(fs, func(i, j int) bool { return fs[i] < fs[j] })
+			if len(fs) >= 2 {
+				lo, hi := fs[0], fs[len(fs)-1]
+				want := firsts[lo] + firsts[hi]
+				for _, dir := range []string{"ASC", "DESC"} {
+					for _, pats := range [][2]byte{{lo, hi}, {hi, lo}} {
+						q := []string{"SCAN", k, dir, "MATCH", string(pats[0]) + "*", "MATCH", string(pats[1]) + "*", "COUNT"}
+						if r, err := c.Do(q...); err == nil && r.Kind == ':' && r.Int != want {
+							ss.fail("scan-count-two-prefixes", fmt.Sprintf("%s: %q = %s, %d retrievable ids start with %q or %q", when, q, r.String(), want, string(lo), string(hi)))
+							return false
+						}
+					}
+				}
+			}
+		}
 		if r, err := c.Do("SEARCH", k, "COUNT"); err == nil && (r.Kind != ':' || r.Int != nStr) {
 			ss.fail("search-count", fmt.Sprintf("%s: SEARCH %q COUNT = %s, %d strings retrievable", when, k, r.String(), nStr))
 			return false
